@@ -60,7 +60,6 @@ MBook == /\ WithBook
             \/ \E a \in Book : MarkTried(a) /\ store[a].at < 2 /\ UNCHANGED open
             \/ \E a \in Book : MarkConnected(a) /\ UNCHANGED open
             \/ \E a \in Addrs : Remove(a) /\ UNCHANGED open
-            \/ \E k \in Kinds, r \in Reqs, n \in {1, 2} : \E R \in SUBSET Book : Fetch(k, r, n, R) /\ UNCHANGED open
 MRestart == /\ open = <<>> /\ (anchors # {} \/ store # <<>> \/ bans # <<>>)
             /\ \E A \in SUBSET anchors : Restart(A) /\ UNCHANGED open
 MNext == MAccept \/ MClose \/ MMeasure \/ MTick \/ MBan \/ MBook \/ MRestart
@@ -71,6 +70,8 @@ NoStaleConnected == \A p \in DOMAIN connected : \E s \in DOMAIN open : Pid(open[
 \* every answer the fetch rules can give is usable: never an address of a connected peer (attempt / feeler / nat)
 FetchNeverConnected == \A k \in {"attempt", "feeler", "nat"}, r \in Reqs :
                           \A a \in Eligible(k, r) : Pid(a) \notin DOMAIN connected
+\* a fetch never changes the state: instead of an action, every state is asked whether each rule has an answer
+FetchAnswerExists == WithBook => \A k \in Kinds, r \in Reqs, n \in {1, 2} : \E R \in SUBSET Book : FetchOK(k, r, n, R)
 \* a ban asked for until u expires at u, not later and not earlier (nothing else extends it)
 BanExact == \A n \in DOMAIN bans : \A a \in Addrs : Covers(n, Ip(a)) /\ bans[n] > now => IpBanned(Ip(a))
 MView == <<U, now, peers, seq, connected, anchors, bans, store, open>>
